@@ -45,12 +45,12 @@ func (d detIDs) PushBlobChunked(ctx context.Context, repo string, chunk int) (oc
 }
 
 type c03Config struct {
-	Stack      string `json:"stack"` // http1, dbg, http2
-	Opts       string `json:"server_options"`
-	ListPage   int    `json:"client_list_page_size"`
-	Names      int    `json:"name_set"`
-	MinChunk   int    `json:"registry_min_chunk,omitempty"` // >0: the backend's writers report this tiny minimum chunk size (client flush logic with small data)
-	Loopback   bool   `json:"loopback,omitempty"`
+	Stack    string `json:"stack"` // http1, dbg, http2
+	Opts     string `json:"server_options"`
+	ListPage int    `json:"client_list_page_size"`
+	Names    int    `json:"name_set"`
+	MinChunk int    `json:"registry_min_chunk,omitempty"` // >0: the backend's writers report this tiny minimum chunk size (client flush logic with small data)
+	Loopback bool   `json:"loopback,omitempty"`
 }
 
 func c03ServerOpts(name string) *ociserver.Options {
@@ -113,15 +113,15 @@ func c03BuildStack(cfg c03Config, backend ociregistry.Interface) (ociregistry.In
 
 // dualSys applies every operation to the direct registry and to the stack.
 type dualSys struct {
-	r      *vcore.Run
-	cfg    c03Config
-	u      *universe
-	a, b   *regSys
+	r          *vcore.Run
+	cfg        c03Config
+	u          *universe
+	a, b       *regSys
 	memA, memB *ocimem.Registry
-	closeB func()
-	hist   []Op
-	log    []string // observation log (for the loopback binding comparison)
-	quiet  bool
+	closeB     func()
+	hist       []Op
+	log        []string // observation log (for the loopback binding comparison)
+	quiet      bool
 }
 
 type c03Case struct {
@@ -631,7 +631,7 @@ func c03Check(r *vcore.Run) vcore.Coverage {
 		}
 		var live []*dualSys
 		st := vstate.BFS(vstate.Spec[Op]{
-			New: func() vstate.System[Op] { s := newDualSys(r, cfg); _ = live; return s },
+			New:      func() vstate.System[Op] { s := newDualSys(r, cfg); _ = live; return s },
 			MaxDepth: d, Seeds: c03NamedSeeds(cfg), Deadline: 8 * time.Minute, MaxStates: 200000,
 		})
 		states += st.States
@@ -701,28 +701,34 @@ func c03Binding(r *vcore.Run) int64 {
 		type res struct{ diff string }
 		results := make([]string, len(hists))
 		vcore.ParallelN(len(hists), func(i int) {
-			logs := [2][]string{}
-			for k, loop := range []bool{false, true} {
-				c := cfg
-				c.Loopback = loop
-				s := newDualSys(r, c)
-				s.quiet = true
-				for _, op := range hists[i] {
-					// handles may be missing if an earlier Start failed
-					if (op.K != "Start" && strings.Contains("Write Resume Commit Cancel", op.K)) && (op.H >= len(s.a.handles) || s.a.handles[op.H] == nil) {
-						break
+			// a real TCP stack has legitimate run-to-run variation (connection reuse, Expect: 100-continue timing):
+			// a difference counts only if it shows on every one of three attempts
+			for attempt := 0; attempt < 3; attempt++ {
+				logs := [2][]string{}
+				for k, loop := range []bool{false, true} {
+					c := cfg
+					c.Loopback = loop
+					s := newDualSys(r, c)
+					s.quiet = true
+					for _, op := range hists[i] {
+						// handles may be missing if an earlier Start failed
+						if (op.K != "Start" && strings.Contains("Write Resume Commit Cancel", op.K)) && (op.H >= len(s.a.handles) || s.a.handles[op.H] == nil) {
+							break
+						}
+						s.Apply(op, false)
 					}
-					s.Apply(op, false)
+					// final sweep through the stack
+					for _, q := range s.a.queries {
+						s.log = append(s.log, runQuery(s.b.ctx, s.b.reg, q).Text())
+					}
+					logs[k] = s.log
+					s.closeB()
 				}
-				// final sweep through the stack
-				for _, q := range s.a.queries {
-					s.log = append(s.log, runQuery(s.b.ctx, s.b.reg, q).Text())
+				a, b := strings.Join(logs[0], "\n"), strings.Join(logs[1], "\n")
+				if a == b {
+					results[i] = ""
+					break
 				}
-				logs[k] = s.log
-				s.closeB()
-			}
-			a, b := strings.Join(logs[0], "\n"), strings.Join(logs[1], "\n")
-			if a != b {
 				results[i] = firstDiff(a, b)
 			}
 		})
